@@ -182,7 +182,8 @@ LAST_STRETCH = {
  'C11': 'ListOffsetArray64::validityerror with the offsets a window into a longer buffer: the rule kernel (decided on its own above) is handed the window\'s starts and stops, the list count and the content length; '
         'otherwise the content\'s answer is returned. getitem_next_missing_jagged (a jagged slice with None lists, the content answering opaque or with a real IndexedOptionArray64): spans per entry, None where either has None, no option node directly inside another.',
  'C17': 'RecordArray::key(position) for every 64-bit position (name inside, std::invalid_argument outside - also below zero); form(materialize) of every list / indexed / option node class (15 classes and variants): a Form of the node\'s own kind, '
-        'index tags naming the real width, size / valid_when / lsb_order the node\'s, no identities, content form = the content\'s answer (read back from memory; replay through Form::tojson).',
+        'index tags naming the real width, size / valid_when / lsb_order the node\'s, no identities, content form = the content\'s answer (read back from memory; replay through Form::tojson); NumpyArray::form (inner shape, item size, format, dtype) and RecordArray::form (shared names, one content form per field in order); '
+        'type() of the 15 list / indexed / option node classes without parameters: var * T, size * T, ?T, T with T the type the content form reports (replay through Type::tostring).',
  'C19': 'Every paused program template additionally with a word call()ed between each pause and its resume (same final state as the uninterrupted run); ForthOutputBuffer::rewind for every 64-bit count.',
 }
 for k_, v_ in LAST_STRETCH.items():
